@@ -155,7 +155,7 @@ using PMin = std::ratio<60>; using PHour = std::ratio<3600>; using PDay = std::r
 static const UnitRep kPrintable[] = {
 	UR("ns", std::nano, "i64", int64_t), UR("us", std::micro, "i64", int64_t), UR("ms", std::milli, "i64", int64_t),
 	UR("s", std::ratio<1>, "i64", int64_t), UR("min", PMin, "i64", int64_t), UR("h", PHour, "i64", int64_t), UR("d", PDay, "i64", int64_t),
-	UR("ns", std::nano, "i32", int32_t), UR("us", std::micro, "i32", int32_t), UR("ms", std::milli, "i32", int32_t),
+	// 32-bit representations: coarse units only (the quantifier of C14); 32-bit sub-second time points are outside it
 	UR("s", std::ratio<1>, "i32", int32_t), UR("min", PMin, "i32", int32_t), UR("h", PHour, "i32", int32_t), UR("d", PDay, "i32", int32_t),
 };
 static const UnitRep* FindUR(const std::string& u, const std::string& r)
@@ -174,9 +174,9 @@ static std::string BytesBE(int64_t c)
 static std::string ObsLine(const std::string& id, const std::string& k, const std::string& u, const std::string& r, int64_t c, const Obs& o)
 {
 	return "{\"id\":" + Q(id) + ",\"k\":" + Q(k) + ",\"u\":" + Q(u) + ",\"r\":" + Q(r) + ",\"c\":" + Q(o.count) + ",\"cby\":" + BytesBE(c) +
-		",\"text\":" + Q(o.text) + ",\"tc\":" + UnitsJson(o.text) + ",\"t16\":" + (o.t16.rfind("V:", 0) == 0 ? o.t16.substr(2) : Q(o.t16)) +
-		",\"t32\":" + (o.t32.rfind("V:", 0) == 0 ? o.t32.substr(2) : Q(o.t32)) + ",\"tw\":" + (o.tw.rfind("V:", 0) == 0 ? o.tw.substr(2) : Q(o.tw)) +
-		",\"back\":" + Q(o.back) + ",\"ts\":[" + Q(o.sec) + "," + Q(o.ns) + "],\"tsback\":" + Q(o.tsback) + ",\"mp\":" + Q(o.mp) + ",\"mphex\":" + Q(o.mphex) + "}\n";
+		",\"text\":" + Q(o.text) + ",\"tc\":" + UnitsJson(o.text) + ",\"t16\":" + (o.t16.rfind("V:", 0) == 0 ? o.t16.substr(2) : UnitsJson(o.t16)) +
+		",\"t32\":" + (o.t32.rfind("V:", 0) == 0 ? o.t32.substr(2) : UnitsJson(o.t32)) + ",\"tw\":" + (o.tw.rfind("V:", 0) == 0 ? o.tw.substr(2) : UnitsJson(o.tw)) +
+		",\"back\":" + Q(o.back) + ",\"ts\":[" + Q(o.sec) + "," + Q(o.ns) + "],\"tsback\":" + Q(o.tsback) + ",\"mp\":" + Q(o.mp) + ",\"mpk\":" + Q(o.mp.substr(0, 1)) + ",\"mphex\":" + Q(o.mphex) + "}\n";
 }
 
 static std::string RunInstant(const std::string& id, const std::string& k, const std::string& u, const std::string& r, int64_t c)
@@ -227,6 +227,39 @@ static const DayUnit kDayAll[] = {
 static const DayUnit kDayCore[] = {
 	DU("d", PDay, int64_t, 1), DU("d", PDay, int32_t, 1), DU("s", std::ratio<1>, int64_t, 86400), DU("ms", std::milli, int64_t, 86400000LL),
 };
+
+static const DayUnit kSecUnits[] = {
+	DU("s", std::ratio<1>, int64_t, 1), DU("s", std::ratio<1>, int32_t, 1), DU("ms", std::milli, int64_t, 1000LL),
+	DU("us", std::micro, int64_t, 1000000LL), DU("ns", std::nano, int64_t, 1000000000LL),
+};
+
+// rows [d, sod, [...]]: every unit that can hold the instant d*86400 + sod seconds
+static void SecondSweep(const char* path)
+{
+	std::ifstream f(path, std::ios::binary);
+	if (!f) { fprintf(stderr, "cannot open %s\n", path); exit(3); }
+	std::string line, out;
+	while (std::getline(f, line))
+	{
+		if (line.size() < 2 || line[0] != '[') continue;
+		char* endp = nullptr;
+		const long long d = strtoll(line.c_str() + 1, &endp, 10);
+		const long long sod = strtoll(endp + 1, nullptr, 10);
+		out = "[" + std::to_string(d) + "," + std::to_string(sod) + ",[";
+		const size_t n = sizeof kSecUnits / sizeof kSecUnits[0];
+		for (size_t i = 0; i < n; ++i)
+		{
+			const auto& u = kSecUnits[i];
+			if (i) out += ',';
+			const __int128 c = (static_cast<__int128>(d) * 86400 + sod) * u.perDay;
+			if (c < u.lo || c > u.hi) { out += "[]"; continue; }
+			const Obs o = u.tp(static_cast<int64_t>(c));
+			out += "[" + Q(o.count) + "," + Q(o.text) + "," + Q(o.back) + "," + Q(o.sec) + "," + Q(o.ns) + "," + Q(o.tsback) + "]";
+		}
+		out += "]]\n";
+		fputs(out.c_str(), stdout);
+	}
+}
 
 template <size_t N> static void DaySweep(const char* path, const DayUnit (&units)[N])
 {
@@ -406,6 +439,7 @@ int main(int argc, char** argv)
 		if (argc >= 4 && std::string(argv[3]) == "core") DaySweep(argv[2], kDayCore); else DaySweep(argv[2], kDayAll);
 		return 0;
 	}
+	if (mode == "secs" && argc >= 3) { SecondSweep(argv[2]); return 0; }
 	if (mode == "list" && argc >= 3)
 	{
 		RunIsolated(vh::ReadLines(argv[2]), [](const std::string& line) {
@@ -455,6 +489,6 @@ int main(int argc, char** argv)
 		});
 		return 0;
 	}
-	fprintf(stderr, "usage: chrono_harness days <table> [core] | list <file> | random <n> <seed> | parse <file>\n");
+	fprintf(stderr, "usage: chrono_harness days <table> [core] | secs <table> | list <file> | random <n> <seed> | parse <file>\n");
 	return 3;
 }
